@@ -6,7 +6,7 @@
 set -u
 P="$(readlink -f "$1")"; PROPS="$2"; TIER="${3:-quick}"; SELF="$(readlink -f "$0")"
 export GOFLAGS=-mod=mod GOPROXY=off GOSUMDB=off GOTOOLCHAIN=local
-if [ "${QV_MUT_WORKTREE:-0}" = 1 ]; then
+if [ "${QV_MUT_WORKTREE:-1}" = 1 ]; then
   # work on a scratch worktree of /repo's HEAD instead of /repo itself (background re-runs)
   WT="$(mktemp -d /tmp/qvmut-wt.XXXXXX)"; rmdir "$WT"
   git -C /repo worktree add -q --detach "$WT" HEAD || exit 2
